@@ -66,4 +66,13 @@ def emePkcs1Decode (em : Bytes) : Option Bytes :=
 /-- the private-key operation `c^d mod n` as k bytes -/
 def rsaPrivate (n d : Nat) (k : Nat) (c : Bytes) : Bytes := natToBytes (modPow (bytesToNat c) d n) k
 
+/-- EME-OAEP encoding (RFC 8017 7.1.1 step 2) with an empty label and a given seed, into `k` bytes -/
+def emeOaepEncode (hash mgfHash : Bytes → Bytes) (m seed : Bytes) (k : Nat) : Bytes :=
+  let hLen := (hash []).length
+  let db := hash [] ++ List.replicate (k - m.length - 2 * hLen - 2) 0 ++ [0x01] ++ m
+  let maskedDB := xorBytes db (mgf1 mgfHash seed (k - hLen - 1))
+  let maskedSeed := xorBytes seed (mgf1 mgfHash maskedDB hLen)
+  0x00 :: maskedSeed ++ maskedDB
+
+
 end Shm.Crypto
